@@ -1,6 +1,7 @@
 """C08 -- state-transition functions are pure: no input mutation, same in same out; views read-only."""
 from __future__ import annotations
 
+import copy
 import random
 
 from vlib import Check, run_check, pmap
@@ -21,7 +22,25 @@ def unit(job, variant, pi, seed, length, per_key, only=None):
             eng.exec(c)
             if i % 4 == 0:
                 complib.eval_views(eng)          # harvest view calls on reachable states as well
-    for sig, call in hv.calls.items():
+    calls = list(hv.calls.values())
+    if only is not None:
+        # targeted search: also the states these calls' components reach when time simply passes (their own `elapse`)
+        extra = []
+        for call in calls:
+            owner = call["owner"]
+            if "elapse" not in getattr(type(owner), "__reducers__", ()) or call["is_view"] and False:
+                continue
+            for T in (15_000.0, 45_000.0, 100_000.0):
+                try:
+                    st2 = owner.elapse(T, copy.deepcopy(call["args"][-1]))[0]
+                    if type(st2) is type(call["args"][-1]):
+                        extra.append({**call, "args": tuple(list(copy.deepcopy(call["args"][:-1])) + [st2])})
+                except Exception:  # noqa: BLE001
+                    pass
+            if len(extra) > 3000:
+                break
+        calls += extra
+    for call in calls:
         out["calls"] += 1
         key = f"{type(call['owner']).__name__}.{call['method']}"
         out["by_class"][key] = out["by_class"].get(key, 0) + 1
@@ -173,7 +192,28 @@ def main(ck: Check):
 
     # ---- a broken obligation: look harder for a concrete failing call of exactly those methods
     if ill_formed and not ck.failing:
-        only = sorted(set(ill_formed))
+        only = set(ill_formed)
+        # a rejected validator / hook of a STATE or ENTITY class: look at every method of the components that use it
+        try:
+            import inspect as _inspect
+            import typing as _typing
+            import gen_effects as _ge
+            names = {c for c, _m in ill_formed}
+            for comp in _ge.component_classes():
+                for meth, _kind in _ge.methods_of(comp):
+                    fn = _inspect.unwrap(_inspect.getattr_static(comp, meth))
+                    try:
+                        hints = _typing.get_type_hints(fn)
+                    except Exception:  # noqa: BLE001
+                        continue
+                    for ann in hints.values():
+                        if isinstance(ann, type) and (ann.__name__ in names or any(
+                                getattr(f.annotation, "__name__", None) in names
+                                for f in getattr(ann, "model_fields", {}).values())):
+                            only.add((comp.__name__, meth))
+        except Exception as e:  # noqa: BLE001
+            ck.notes.append(f"mapping hooks to components failed: {type(e).__name__}: {e}")
+        only = sorted(only)
         work2 = [(job, v, pi, ck.seed + 1000, 60, 4000, only) for job in JOBS for v in ([0, 1] if quick else [0, 1, 2])
                  for pi in range(4 if quick else 12)]
         absorb(pmap(unit, work2, ck.budget_s * 0.3))
@@ -206,7 +246,7 @@ def main(ck: Check):
         "tainted_fields": sorted({t for e in entries.values() for t in e["taint"]}),
         "library_functions_called_but_not_inlined": dict(__import__("gen_effects").EXTERNALS),
         "explanation": "PROVED (Simaple.Props.C08_Effects, regenerated from the source on every run): for every reducer and view "
-                       "method of every shipped component class except the listed path-correlated one, on every heap and for every "
+                       "method of every shipped component class (none is exempt), on every heap and for every "
                        "argument, at every point of the call no object that existed before the call is written. PROVED "
                        "(Simaple.Props.C08): the dispatcher's frame. OBSERVED: repeatability (same in, same out) on harvested calls; "
                        "in the functional L2 models a reducer is a function, so repeatability holds there by construction.",
